@@ -6,6 +6,7 @@ pub mod c05;
 pub mod c09;
 pub mod c13;
 pub mod c14;
+pub mod c15;
 pub mod c16;
 pub mod c17;
 pub mod c18;
@@ -33,6 +34,7 @@ pub fn dispatch(id: &str, tier: Tier, replay_file: Option<&Path>) -> i32 {
         "C09" => go!(c09),
         "C13" => go!(c13),
         "C14" => go!(c14),
+        "C15" => go!(c15),
         "C16" => go!(c16),
         "C17" => go!(c17),
         "C18" => go!(c18),
